@@ -57,7 +57,7 @@ func (v Val) sortIn(sc *sortCtx) string {
 
 func ghostSort(kind string) string {
 	switch kind {
-	case "int":
+	case "int", "nat":
 		return "Int"
 	case "bool":
 		return "Bool"
@@ -819,7 +819,7 @@ type predDef struct {
 // paramVal builds a formal parameter value of the given kind (ghost kind or Go type expression).
 func (eng *Engine) paramVal(fv *FuncVerifier, name, kind, pkgPath string) (Val, string) {
 	switch kind {
-	case "int", "bool", "seq", "seqseq", "slice", "sliceseq", "real", "str", "rank", "rankseq":
+	case "int", "nat", "bool", "seq", "seqseq", "slice", "sliceseq", "real", "str", "rank", "rankseq":
 		return Val{T: name, Sort: ghostSort(kind)}, ghostSort(kind)
 	}
 	p := eng.pkgs[pkgPath]
